@@ -509,6 +509,10 @@ impl Visit for Analyzer<'_> {
     let prev_end = self.scope.end;
     let mut case_end = None;
 
+    // The test expression is evaluated in the scope of the switch statement
+    // (it may contain functions whose bodies need metadata, too).
+    n.test.visit_with(self);
+
     self.with_child_scope(BlockKind::Case, n.start(), |a| {
       n.cons.visit_with(a);
 
@@ -647,6 +651,7 @@ impl Visit for Analyzer<'_> {
   fn visit_for_of_stmt(&mut self, n: &ForOfStmt) {
     let body_lo = n.body.start();
 
+    n.left.visit_with(self);
     n.right.visit_with(self);
 
     self.with_child_scope(BlockKind::Loop, body_lo, |a| {
@@ -662,6 +667,7 @@ impl Visit for Analyzer<'_> {
   fn visit_for_in_stmt(&mut self, n: &ForInStmt) {
     let body_lo = n.body.start();
 
+    n.left.visit_with(self);
     n.right.visit_with(self);
 
     self.with_child_scope(BlockKind::Loop, body_lo, |a| {
